@@ -23,7 +23,7 @@ from harness import solvermodel as sm
 from harness.checks import c02
 from harness.core import Cut, F
 
-PROPS_MODULES = ["Pdq.Props.C05", "Pdq.Props.C05Loop"]
+PROPS_MODULES = ["Pdq.Props.C05", "Pdq.Props.C05Loop", "Pdq.Props.C05Scan"]
 LEVEL = "proof"
 TOL = 1e-9
 
